@@ -577,6 +577,9 @@ pub fn run_c19(tier: Tier) -> i32 {
     // awkward steps: empty key, keys with path syntax in them, non-ASCII, huge index
     let odd = vec![Step::Key(String::new()), Step::Key("a.b[0]".into()), Step::Key("é".into()), Step::Index(usize::MAX)];
     c19_rec(deserr::ValuePointerRef::Origin, &mut vec![], 4, &odd, &mut check);
+    // keys that look like path syntax themselves (`tags[]`, `[]`, `.`), mixed with indices
+    let odd2 = vec![Step::Key("tags[]".into()), Step::Key("[]".into()), Step::Key(".".into()), Step::Index(1)];
+    c19_rec(deserr::ValuePointerRef::Origin, &mut vec![], 4, &odd2, &mut check);
     let exhaustive_n = n.get();
     // longer paths: the lexicographically first 2000 paths of each length 7..=12, with distinct keys
     let long_alpha = vec![Step::Key("k1".into()), Step::Index(7), Step::Key("k2".into()), Step::Index(0)];
@@ -616,7 +619,7 @@ pub fn run_c19(tier: Tier) -> i32 {
     rec.sample(json!({"path": ".a[0].b", "to_owned": format!("{:?}", deserr::ValuePointerRef::Origin.push_key("a").push_index(0).push_key("b").to_owned().path)}));
     rec.finish(
         "model_checking",
-        "complete enumeration of every path of ≤ 6 (quick) / ≤ 9 (thorough) steps over {key a, key b, index 0, index 1}, built as real ValuePointerRef chains by recursion, every path of ≤ 4 steps over {empty key, key `a.b[0]`, key `é`, index usize::MAX}, plus the first 2000 paths of each of the next six lengths over a second alphabet and four paths of each length 100, 127–130, 255–257, 1000, 5000. Oracle: to_owned().path lists exactly the pushed steps in order; is_origin ⇔ no step; first_field / last_field = first / last key step or None.",
+        "complete enumeration of every path of ≤ 6 (quick) / ≤ 9 (thorough) steps over {key a, key b, index 0, index 1}, built as real ValuePointerRef chains by recursion, every path of ≤ 4 steps over {empty key, key `a.b[0]`, key `é`, index usize::MAX} and over {key `tags[]`, key `[]`, key `.`, index 1}, plus the first 2000 paths of each of the next six lengths over a second alphabet and four paths of each length 100, 127–130, 255–257, 1000, 5000. Oracle: to_owned().path lists exactly the pushed steps in order; is_origin ⇔ no step; first_field / last_field = first / last key step or None.",
         &["ValuePointerComponent is not exported by deserr, so the owned path is compared through its Debug rendering"],
     )
 }
@@ -899,6 +902,35 @@ pub fn run_c13(tier: Tier) -> i32 {
             }
         }
     }
+    // arrays that start with a float and go on with integers at the extremes (no "it is all
+    // floats" shortcut may change them), at lengths around 32 / 64 / 256
+    for n in [2usize, 31, 32, 33, 63, 64, 65, 255, 256, 257] {
+        let mut items = vec!["0.5".to_string()];
+        for i in 1..n {
+            items.push(match i % 4 {
+                0 => "18446744073709551615".to_string(),
+                1 => "-9223372036854775808".to_string(),
+                2 => "9007199254740993".to_string(),
+                _ => format!("{i}"),
+            });
+        }
+        let text = format!("[{}]", items.join(","));
+        let v: serde_json::Value = serde_json::from_str(&text).unwrap();
+        begin(&Script::keep_going());
+        let back = deserr::deserialize::<serde_json::Value, serde_json::Value, RecA>(v.clone());
+        let _ = end();
+        let rt = serde_json::Value::from(v.clone().into_value());
+        large += 1;
+        let same = |a: &serde_json::Value| *a == v && a.to_string() == v.to_string();
+        if !back.as_ref().map(same).unwrap_or(false) || !same(&rt) {
+            rec.violation(Violation {
+                property: "C13".into(),
+                subject: "mixed numeric array".into(),
+                message: format!("an array of {n} numbers starting with a float and continuing with extreme integers does not round-trip"),
+                replay: json!({"kind": "c13-mixed", "n": n}),
+            });
+        }
+    }
     // documents nested deeper than serde_json's *parser* accepts: a Value can hold them all the same
     for depth in [127usize, 128, 129, 130, 200, 1000] {
         for obj in [false, true] {
@@ -1048,7 +1080,16 @@ pub fn run_c05(tier: Tier) -> i32 {
     let n_ints = values.len();
     // what only a non-canonical value source can present: a zero or a small non-negative number
     // classified as "negative integer" (in range for every signed target)
-    let noncanonical = [Doc::Neg(0), Doc::Neg(1), Doc::Neg(100), Doc::Neg(127)];
+    let noncanonical = [
+        Doc::Neg(0),
+        Doc::Neg(1),
+        Doc::Neg(100),
+        Doc::Neg(127),
+        // floats serde_json cannot hold: IEEE conversion applies to them as to any other float
+        Doc::Float(f64::NAN),
+        Doc::Float(f64::INFINITY),
+        Doc::Float(f64::NEG_INFINITY),
+    ];
     for f in [
         0.0f64,
         -0.0,
@@ -1080,6 +1121,10 @@ pub fn run_c05(tier: Tier) -> i32 {
         values.push(Doc::Float(f));
     }
     for s in crate::pure::words(&['a', 'é', '😀'], 3) {
+        values.push(Doc::Str(s));
+    }
+    // one- and two-character strings over characters that escape syntaxes treat specially
+    for s in crate::pure::words(&['\\', 't', 'n', '0', 'r', '"', ' ', '\t'], 2) {
         values.push(Doc::Str(s));
     }
     // long strings: multi-byte characters straddling every plausible byte offset (truncation, buffers)
@@ -1206,7 +1251,7 @@ pub fn run_c05(tier: Tier) -> i32 {
     rec.sample(json!({"target": "f32", "payload": "16777217", "expected": format!("{:?}", scalar_expect(Scalar::F32, &Doc::Int(16777217)))}));
     rec.finish(
         "model_checking",
-        "complete enumeration: 30 scalar targets × 2 value sources × every payload of the stated set (all integers of the range, all ±2^k and ±2^k±1, every target's MIN/MAX ±1, every integer next to an f32 / f64 rounding midpoint 2^k + 2^(k-24)·{1,3} ± 1 (double-rounding detectors), zero and small non-negative numbers classified as negative by a non-canonical source, 26 floats incl. ±0, subnormals, f32::MAX neighbours, 2^24±1, 2^53±1, huge; all strings of 0..3 scalar values over {a, é, 😀}; 126 long strings of 15..257+ bytes whose multi-byte characters straddle every byte offset; every non-scalar kind). Each executed on the real deserialize with a recording error type. Oracle: independent i128/decimal-string specification — success ⇔ kind admissible ∧ value in domain; result equals the input (floats: the correctly rounded conversion computed from the exact decimal expansion); wrong kind ⇒ exactly one IncorrectValueKind whose accepted set is the admissible set and whose actual is the payload; domain violation ⇒ exactly one Unexpected whose numeric tokens contain the received number and the violated bound (or mention a zero / the string and its length / empty).",
+        "complete enumeration: 30 scalar targets × 2 value sources × every payload of the stated set (all integers of the range, all ±2^k and ±2^k±1, every target's MIN/MAX ±1, every integer next to an f32 / f64 rounding midpoint 2^k + 2^(k-24)·{1,3} ± 1 (double-rounding detectors), zero and small non-negative numbers classified as negative and NaN / ±inf from a non-canonical source, all strings of ≤ 2 characters over {backslash, t, n, 0, r, double quote, space, tab}, 26 floats incl. ±0, subnormals, f32::MAX neighbours, 2^24±1, 2^53±1, huge; all strings of 0..3 scalar values over {a, é, 😀}; 126 long strings of 15..257+ bytes whose multi-byte characters straddle every byte offset; every non-scalar kind). Each executed on the real deserialize with a recording error type. Oracle: independent i128/decimal-string specification — success ⇔ kind admissible ∧ value in domain; result equals the input (floats: the correctly rounded conversion computed from the exact decimal expansion); wrong kind ⇒ exactly one IncorrectValueKind whose accepted set is the admissible set and whose actual is the payload; domain violation ⇒ exactly one Unexpected whose numeric tokens contain the received number and the violated bound (or mention a zero / the string and its length / empty).",
         &["float reference = Rust's correctly rounded decimal parser applied to the exact decimal expansion of the input"],
     )
 }
